@@ -66,6 +66,21 @@ Proof.
   unfold fn_of. now rewrite H, K.
 Qed.
 
+(* every octet string, every function code: a length field (octets 2-3, absent octets read as 0)
+   that is not the datagram's octet count means refusal *)
+Lemma dec_frame_length_any bs :
+  nth 2 bs 0 * 256 + nth 3 bs 0 <> lenN bs -> dec_frame bs = Err DecodingError.
+Proof.
+  intros H. destruct (Nat.ltb (length bs) 4) eqn:E.
+  - apply dec_frame_short. apply Nat.ltb_lt. exact E.
+  - apply Nat.ltb_ge in E.
+    destruct bs as [|t [|f [|hi [|lo body]]]]; cbn [length] in E; try lia.
+    cbn [nth] in H. rewrite !lenN_cons in H.
+    destruct (t =? 129) eqn:T.
+    + assert (t = 129) by lia. subst t. apply dec_frame_length. lia.
+    + apply dec_frame_type. cbn [hd_error]. intros X. injection X as X. lia.
+Qed.
+
 (* ---- totality: nothing but DecodingError, fuel never exhausted --------------------------- *)
 Lemma get_data_cases k bs :
   get_data k bs = Err DecodingError \/
